@@ -154,6 +154,20 @@ def run_cases(rep, nd_mi, nd_gamma, incr, bins):
             except Exception as e:
                 rep.violation('corr:Gamma:S-%s:raises' % sname, 'generate_Gamma_and_rays(%d,%d,S) with S the identity given as %s raises %r' % (N, d, sname, e),
                               dict(kind='exception', call='generate_Gamma_and_rays', N=N, d=d, S=sname, exc=repr(e)))
+    # 5. the identity itself at HIGH degree (where products like d^d d! leave the int64 range), exact Fractions on the implementation's output;
+    #    observed residual of the unchanged code <= 1e-7 at these (N, d)
+    for N, d in [(1, 8), (1, 11), (1, 13), (1, 16), (2, 8), (2, 11), (2, 12)] + ([(2, 14), (3, 7)] if len(nd_gamma) > 20 else []):
+        rep.count('high-degree identity (N, d)', '%d,%d' % (N, d))
+        rep.case(('high-degree', N, d), True, sample=dict(check='interpolation identity at high degree', N=N, d=d))
+        try:
+            G, rays = m.generate_Gamma_and_rays(N, d)
+            J = [[int(v) for v in r] for r in m.generate_multi_indices(N, d)]
+            res, where = identity_residual(G, rays, J)
+            if not (res <= Fraction(1, 10 ** 5)) or not numpy.array_equal(rays, numpy.array(J, dtype=float)):
+                rep.violation('identity:high-degree', 'sum_j Gamma[i,j] ray_j^a - delta(i,a) = %.3g at (i,a) = %s for N=%d, d=%d' % (float(res), where, N, d),
+                              dict(kind='high-degree', N=N, d=d, residual=float(res), where=where))
+        except Exception as e:
+            rep.violation('identity:high-degree:raises', 'generate_Gamma_and_rays(%d,%d) raises %r' % (N, d, e), dict(kind='exception', N=N, d=d, exc=repr(e)))
     verdicts, logs = lib.eval_bool_cases(PID, IMPORTS, DEFS, terms, per_file=60)
     return terms, meta, verdicts, logs
 
